@@ -140,6 +140,8 @@ class Unit:
             tr = cls(ast, opts=opts)
         self.tr = tr
         tr.rec_alias.update(opts.get("rec_alias", {}))
+        for c in opts.get("force_records", ()):
+            tr.need_record(c)      # records the unit's stubs mention in every target's text
         aliases = {}
         for t in ast.tops:
             if t.get("kind") == "NamespaceDecl" and t.get("name") == "verif_use":
